@@ -77,7 +77,14 @@ pub fn card_name(deck_index: usize) -> String {
 }
 
 /// Tokens that are not a spelling of any card.
-pub const JUNK: [&str; 10] = ["XX", "__", "--", "??", "A", "s", "1S", "AX", "ZZZ", "♠A"];
+/// The second half are look-alikes: characters that case-fold, width-fold or visually resemble
+/// a rank or suit symbol (KELVIN SIGN lower-cases to k, LONG S upper-cases to S, fullwidth and
+/// mathematical letters, Cyrillic А/К, the circled and playing-card code points) but are not one.
+pub const JUNK: [&str; 24] = [
+    "XX", "__", "--", "??", "A", "s", "1S", "AX", "ZZZ", "♠A",
+    "\u{212A}♠", "\u{212A}s", "A\u{17F}", "K\u{17F}", "\u{FF21}S", "\u{FF21}\u{FF33}", "\u{1D400}S", "\u{0410}S", "\u{041A}\u{2660}", "\u{FE0F}T\u{2664}",
+    "\u{1F0A1}", "10S", "Ａ♠", "ａｓ",
+];
 
 /// Tails appended to a card spelling; by C12 the token is still that card.
 pub const TAILS: [&str; 6] = ["", "x", "♠", "0", "ss", "!"];
@@ -109,10 +116,61 @@ mod tests {
     }
 
     #[test]
+    fn junk_and_aliases_do_not_start_with_rank_then_suit() {
+        let ranks: Vec<char> = RANK_UPPER.iter().chain(RANK_LOWER.iter()).copied().chain(['0']).collect();
+        let suits: Vec<char> = SUIT_SPELL.iter().flatten().copied().collect();
+        let is_card = |t: &str| {
+            let mut c = t.chars();
+            match (c.next(), c.next()) {
+                (Some(a), Some(b)) => ranks.contains(&a) && suits.contains(&b),
+                _ => false,
+            }
+        };
+        for j in JUNK {
+            assert!(!is_card(j), "junk token {:?} is a card by the documented rule", j);
+            assert!(!j.chars().any(char::is_whitespace), "junk token {:?} contains whitespace", j);
+        }
+        for i in 0..52 {
+            for sp in 0..spellings(i) {
+                assert!(is_card(&spelling(i, sp)));
+                for mode in 0..6 {
+                    let a = alias_spelling(i, sp, mode);
+                    assert!(!is_card(&a), "alias {:?} is a card", a);
+                    assert!(!a.chars().any(char::is_whitespace));
+                }
+            }
+        }
+    }
+
+    #[test]
     fn words_are_distinct() {
         let mut w: Vec<u32> = (0..52).map(card_word).collect();
         w.sort();
         w.dedup();
         assert_eq!(w.len(), 52);
     }
+}
+
+/// A non-card token derived from a card spelling by moving one or both of its two leading
+/// characters to a code point that agrees with the original only in its low 16 bits (modes 0-2)
+/// or low 8 bits (modes 3-5). Code that narrows `char` before comparing confuses them.
+pub fn alias_spelling(deck_index: usize, which: usize, mode: usize) -> String {
+    let sp = spelling(deck_index, which);
+    let mut cs: Vec<char> = sp.chars().collect();
+    let (first, second, delta) = match mode % 6 {
+        0 => (true, false, 0x1_0000u32),
+        1 => (false, true, 0x1_0000),
+        2 => (true, true, 0x1_0000),
+        3 => (true, false, 0x100),
+        4 => (false, true, 0x100),
+        _ => (true, true, 0x100),
+    };
+    let shift = |c: char| char::from_u32(c as u32 + delta).unwrap_or('\u{FFFD}');
+    if first {
+        cs[0] = shift(cs[0]);
+    }
+    if second {
+        cs[1] = shift(cs[1]);
+    }
+    cs.into_iter().collect()
 }
